@@ -90,7 +90,9 @@ const COND_MAX: f64 = 1.0e3;
 
 fn dom_pos(t: &T) -> Result<(), RErr> {
     for d in &t.x {
-        if !(d.v >= 0.05) || d.m > COND_MAX * d.v.abs() {
+        // (positive and well conditioned: the error scale of the operand is at most COND_MAX times its
+        // magnitude; there is no absolute threshold - tiny exact operands are in the domain)
+        if !(d.v > 0.0) || d.m > COND_MAX * d.v.abs() {
             return Err(RErr::Domain);
         }
     }
@@ -98,7 +100,7 @@ fn dom_pos(t: &T) -> Result<(), RErr> {
 }
 fn dom_nonzero(t: &T) -> Result<(), RErr> {
     for d in &t.x {
-        if !(d.v.abs() >= 0.05) || d.m > COND_MAX * d.v.abs() {
+        if !(d.v.abs() > 0.0) || d.m > COND_MAX * d.v.abs() {
             return Err(RErr::Domain);
         }
     }
@@ -113,11 +115,20 @@ fn dom_bounded(t: &T, b: f64) -> Result<(), RErr> {
     Ok(())
 }
 
+/// how often a reference result was discarded only because its error bound was not finite
+pub static BOUND_OVERFLOWS: std::sync::atomic::AtomicU64 = std::sync::atomic::AtomicU64::new(0);
+
 /// Apply the operation in the reference model.
 pub fn apply_ref(op: &OpK, a: &[&T]) -> Result<T, RErr> {
     let r = apply_ref_raw(op, a)?;
     for d in &r.x {
-        if !d.v.is_finite() || !d.d.is_finite() || !d.m.is_finite() || !d.md.is_finite() {
+        if !d.v.is_finite() || !d.d.is_finite() {
+            return Err(RErr::Domain);
+        }
+        if !d.m.is_finite() || !d.md.is_finite() {
+            // value and tangent are fine, only the reference's error bound overflowed: the state is
+            // skipped, and counted, because a skipped state is a place where a defect can hide
+            BOUND_OVERFLOWS.fetch_add(1, std::sync::atomic::Ordering::Relaxed);
             return Err(RErr::Domain);
         }
     }
